@@ -300,18 +300,6 @@ class Generated:
 def emit_spec(gen, fname, ftags, spec, canary):
     """emit requires/ensures lines, tracking /*@Cxx*/ clause tags; returns nothing"""
     lines = spec.rstrip().split('\n') if spec.strip() else []
-    if canary:
-        joined = '\n'.join(lines)
-        if re.search(r'\bensures\b', mask(joined)):
-            # make sure the last clause ends with a comma, then add `false`
-            k = len(lines) - 1
-            while k >= 0 and not lines[k].strip():
-                k -= 1
-            if not lines[k].rstrip().endswith(','):
-                lines[k] = lines[k].rstrip() + ','
-            lines.append('            false, /*canary*/')
-        else:
-            lines.append('        ensures false, /*canary*/')
     cur = list(ftags)
     section = None
     for ln in lines:
@@ -371,6 +359,20 @@ def expand(template_path, repo_src_dir, canary=False):
             gen.types.append({'file': kv['file'], 'name': kv['name'], 'sha256': hashlib.sha256(text.encode()).hexdigest()})
             gen.emit(text, {'fn': 'type ' + kv['name'], 'kind': 'type', 'tags': []})
             i += 1
+            continue
+        if d.startswith('CANARY'):
+            # hand-written callers of assumed contracts; emitted in canary mode only, each must FAIL
+            name = d.split()[1]
+            i += 1
+            blk = []
+            while not tl[i].strip().startswith('//@@ END'):
+                blk.append(tl[i])
+                i += 1
+            i += 1
+            if canary:
+                gen.emit('\n'.join(blk), {'fn': 'canary:' + name, 'kind': 'body', 'tags': []})
+                gen.functions.append({'fn': 'canary:' + name, 'file': '(template)', 'impl': '', 'name': name,
+                                      'source_line': 0, 'sha256': '', 'tags': [], 'gen_lines': [0, 0]})
             continue
         if d.startswith('EXTERNAL'):
             kv = parse_kv(d)
@@ -445,7 +447,17 @@ def expand(template_path, repo_src_dir, canary=False):
         gen.emit('    {', {'fn': fname, 'kind': 'body', 'tags': tags})
         if sections['PROLOGUE'].strip():
             gen.emit(sections['PROLOGUE'].rstrip(), {'fn': fname, 'kind': 'body', 'tags': tags})
-        gen.emit(body.strip('\n'), {'fn': fname, 'kind': 'body', 'tags': tags})
+        if canary and kv.get('canary', 'exit') == 'entry':
+            gen.emit('        proof { assert(false); } /*canary: entry must be reachable*/', {'fn': fname, 'kind': 'body', 'tags': tags})
+            gen.emit(body.strip('\n'), {'fn': fname, 'kind': 'body', 'tags': tags})
+        elif canary:
+            gen.emit('        let r__ = {', {'fn': fname, 'kind': 'body', 'tags': tags})
+            gen.emit(body.strip('\n'), {'fn': fname, 'kind': 'body', 'tags': tags})
+            gen.emit('        };', {'fn': fname, 'kind': 'body', 'tags': tags})
+            gen.emit('        proof { assert(false); } /*canary: exit must be reachable*/', {'fn': fname, 'kind': 'body', 'tags': tags})
+            gen.emit('        r__', {'fn': fname, 'kind': 'body', 'tags': tags})
+        else:
+            gen.emit(body.strip('\n'), {'fn': fname, 'kind': 'body', 'tags': tags})
         gen.emit('    }', {'fn': fname, 'kind': 'body', 'tags': tags})
         gen.functions.append({'fn': fname, 'file': f.file, 'impl': f.impl_header, 'name': f.name,
                               'source_line': f.line, 'sha256': f.sha256, 'tags': tags,
